@@ -20,6 +20,7 @@ func main() {
 	flag.IntVar(&o.MapCap, "mapcap", 3, "slots per map")
 	flag.IntVar(&o.AppendCap, "appendcap", 0, "cells reserved for an append to a slice of symbolic length (default 4)")
 	flag.IntVar(&o.Preempt, "preempt", -1, "bound on the number of preemptions in a schedule (-1 = unbounded)")
+	flag.IntVar(&o.Pruners, "pruners", 1, "parallel pruning sessions")
 	flag.BoolVar(&o.Spin, "spin", false, "report unwinding failures of library loops as violations (busy loop)")
 	flag.StringVar(&o.HintDir, "hints", "", "directory with shared-cell hint files (seed of the fixpoint)")
 	flag.BoolVar(&o.WriteHint, "writehints", false, "write the hint file after the fixpoint")
